@@ -12,6 +12,7 @@ package main
 
 import (
 	"fmt"
+	"os"
 	"runtime"
 	"sort"
 	"sync"
@@ -157,6 +158,16 @@ func main() {
 		jobs = append(jobs, job{kind: "legal", limit: limits[i%3], seed: seeds.Int63()})
 	}
 
+	if only := os.Getenv("VERIF_C13_ONLY"); only != "" { // debugging aid: cell | random | legal
+		var sel []job
+		for _, j := range jobs {
+			if j.kind == only {
+				sel = append(sel, j)
+			}
+		}
+		jobs = sel
+		run.Inconclusive("VERIF_C13_ONLY=%s: partial run", only)
+	}
 	total := newStats()
 	var mu sync.Mutex
 	cellSeen := map[string]bool{}
